@@ -1,5 +1,5 @@
 """LIST-OPS: reordering primitives of the chunk list (src/chunk.cpp, src/ListManager.h)."""
-TUS = ['unc_text.cpp', 'unicode.cpp', 'unc_ctype.cpp', '$BUILD/src/options.cpp']
+TUS = ['unc_text.cpp', 'unicode.cpp', 'unc_ctype.cpp', '$BUILD/src/options.cpp', '$HARNESS/chartable.cpp']
 SHAPES = {'quick': ['0,1,0,1'], 'thorough': ['0,1,0,1', '0,0,1,0,1', '0,1,0,0,1', '0,1,0,1,0,1', '0,0,1,0,0,1', '0,1,1,0,1']}
 OBLIGATIONS = [
     dict(id='LIST-OPS', harness='list.cpp', mem_gb=40, entry='vp_list_ops', extra_tus=TUS, havoc_options=True, noop=['_Z11encode_utf8iRSt9vp_vectorIhvE', '_Z15space_col_alignP5ChunkS0_'],
